@@ -196,4 +196,50 @@ def Engine.LogicalOnly (e : Engine) (f : Nat) : Prop :=
 def Engine.SupportedNow (e : Engine) (f : Nat) : Prop :=
   ∃ j ∈ e.tms.justs, j.fact = f ∧ ∀ p ∈ j.premises, e.present p = true
 
+/-! ### the maintenance call `C` (`working_memory_mut().clear_modification_tracking()`)
+
+`WorkingMemory::clear_modification_tracking` clears the two "pending since the last propagation" sets (`modified_handles`,
+`retracted_handles`) and nothing else, so it is not an operation of the model (`Op` is untouched): a case is a list of
+`Option Op` (`none` = `C`), the model runs `stripC` of it, and the step a `C` shows must be `cstep` of the sets of the step
+before it — clause `maintenance`. The step type `σ` and the sets type `π` are parameters: the driver instantiates them
+with the text of a step (`res/present/logical/explicit/valid/stats`, `setsOf` = everything after the result, `cstep p = "c/" ++ p`);
+`weave` is what `drv_c08 model` prints for a case with `C` in it, `unweave` is the clause `drv_c08 oracle` evaluates first
+(`fail maintenance@i`) and whose result it hands to `runOk`. -/
+
+/-- the two views of a step the clause needs -/
+structure StepView (σ π : Type) where
+  /-- the sets of a step (everything but the result) -/
+  setsOf : σ → π
+  /-- the step a maintenance call shows when the sets before it are `p`: result `c`, the same sets -/
+  cstep : π → σ
+
+/-- the history the model and `runOk` see: the case without its maintenance calls -/
+def stripC (ts : List (Option Op)) : List Op := ts.filterMap id
+
+/-- model mode: put a step `cstep <sets of the step before>` back for every `C` -/
+def weave {σ π : Type} (V : StepView σ π) : List (Option Op) → List σ → π → List σ
+  | [], _, _ => []
+  | none :: ts, steps, prev => V.cstep prev :: weave V ts steps prev
+  | some _ :: ts, st :: steps, _ => st :: weave V ts steps (V.setsOf st)
+  | some _ :: _, [], _ => []
+
+/-- oracle mode, clause **maintenance**: check the `C` steps (result `c`, sets unchanged) and remove them;
+`.error i` = the clause fails at (original) step `i`. A truncated observation is handed on as it is (`runOk` rejects it). -/
+def unweave {σ π : Type} [BEq σ] (V : StepView σ π) : List (Option Op) → List σ → π → Nat → Except Nat (List σ)
+  | [], rest, _, _ => .ok rest
+  | none :: ts, st :: steps, prev, i =>
+    if st == V.cstep prev then unweave V ts steps prev (i + 1) else .error i
+  | some _ :: ts, st :: steps, _, i => (unweave V ts steps (V.setsOf st) (i + 1)).map (st :: ·)
+  | _ :: _, [], _, _ => .ok []
+
+/-- the model extended by the maintenance call (the thin wrapper): `C` leaves the engine as it is — neither the facts nor the
+TMS are touched — and shows the sets of the step before it; any other operation is `step`, observed by `Engine.obs` and
+rendered by `enc` -/
+def traceC {σ π : Type} (V : StepView σ π) (enc : Obs → σ) (k : Nat) : Engine → π → List (Option Op) → List σ
+  | _, _, [] => []
+  | e, prev, none :: ts => V.cstep prev :: traceC V enc k e prev ts
+  | e, _, some op :: ts =>
+    enc ((step e op).1.obs k (step e op).2)
+      :: traceC V enc k (step e op).1 (V.setsOf (enc ((step e op).1.obs k (step e op).2))) ts
+
 end C08
